@@ -192,8 +192,66 @@ class Templates:
                     self.events.append(tk)
 
     # ------------------------------------------------------------------ rendering
-    def render(self, stream, depth=0, seen=None):
-        """Flat list of token strings of `stream`, groups expanded; interpolations as ⟨type⟩."""
+    def callee_templates(self, tk):
+        """Templates of the hand-written function of this crate whose result is interpolated by
+        `tk` (`let x = self.helper(..); quote!(.. #x ..)`), or None."""
+        if tk.kind != "interp":
+            return None
+        b = self.b
+        idx = b.crate.get("_tpl_cache")
+        if idx is None:
+            idx = b.crate["_tpl_cache"] = {}
+        # a value of a crate type with its own ToTokens impl (possibly inside Option / #(..)*)
+        ty = tk.ty or ""
+        for _ in range(3):
+            m = re.match(r"^(?:core::option::Option|quote::__private::RepInterp)<(.*)>$", ty)
+            if not m:
+                break
+            ty = m.group(1)
+        if ty.startswith("darling_core::"):
+            name = "<%s as quote::to_tokens::ToTokens>::to_tokens" % ty
+            if name not in idx:
+                idx[name] = None
+                raws = [r for r in b.crate["bodies"] if r["key"] == name]
+                if len(raws) == 1:
+                    t = Templates(mir.Body(raws[0], b.crate))
+                    if t.events:
+                        idx[name] = t
+            return idx[name]
+        if tk.src is None:
+            return None
+        ds = [d for d in b.defs().get(tk.src, []) if not b.is_cleanup(d[0])]
+        cur = tk.src
+        for _ in range(6):
+            ds = [d for d in b.defs().get(cur, []) if not b.is_cleanup(d[0])]
+            if len(ds) == 1 and ds[0][2] == "assign" and ds[0][3]["r"]["k"] in ("use", "ref"):
+                r = ds[0][3]["r"]
+                p = r["op"]["p"] if r["k"] == "use" and r["op"]["k"] in ("copy", "move") else (r["p"] if r["k"] == "ref" else None)
+                if p is None or any(e["k"] != "deref" for e in p["proj"]):
+                    return None
+                cur = p["local"]
+                continue
+            break
+        if len(ds) != 1 or ds[0][2] != "call":
+            return None
+        name = mir.callee_of(ds[0][3])
+        if not name:
+            return None
+        if name not in idx:
+            idx[name] = None
+            raws = [r for r in b.crate["bodies"] if r["key"] == name]
+            if len(raws) == 1 and raws[0]["kind"] in ("Fn", "AssocFn"):
+                cb = mir.Body(raws[0], b.crate)
+                if not cb.derived:
+                    t = Templates(cb)
+                    if t.events:
+                        idx[name] = t
+        return idx[name]
+
+    def render(self, stream, depth=0, seen=None, follow=False):
+        """Flat list of token strings of `stream`, groups expanded; interpolations as ⟨type⟩.
+        follow=True also expands interpolated token streams returned by helper functions of the
+        crate (what ends up in the output does not depend on how the generator is cut into fns)."""
         seen = seen or set()
         if stream in seen or depth > 12:
             return ["…"]
@@ -206,29 +264,41 @@ class Templates:
                 out.append(tk.text if tk.text is not None else "?")
             elif tk.kind == "group":
                 out.append(OPEN.get(tk.text, "("))
-                out.extend(self.render(tk.inner, depth + 1, seen))
+                out.extend(self.render(tk.inner, depth + 1, seen, follow))
                 out.append(CLOSE.get(tk.text, ")"))
             elif tk.kind == "interp":
                 alts = self.stream_alts(tk.src)
                 if alts and tk.ty and "TokenStream" in tk.ty:
                     if len(alts) == 1:
-                        out.extend(self.render(alts[0], depth + 1, seen))
+                        out.extend(self.render(alts[0], depth + 1, seen, follow))
                     else:
                         out.append("⟨alt")
                         for a in alts:
-                            out.extend(self.render(a, depth + 1, seen))
+                            out.extend(self.render(a, depth + 1, seen, follow))
                             out.append("|")
                         out[-1] = "⟩"
                 else:
-                    out.append("⟨%s⟩" % (tag(tk.ty),))
+                    ct = self.callee_templates(tk) if follow and depth < 6 and tk.ty else None
+                    if ct is not None and ct is not self:
+                        roots = ct.root_streams()
+                        out.append("⟨alt")
+                        for a in roots:
+                            out.extend(ct.render(a, depth + 2, None, follow))
+                            out.append("|")
+                        if roots:
+                            out[-1] = "⟩"
+                        else:
+                            out.append("⟩")
+                    else:
+                        out.append("⟨%s⟩" % (tag(tk.ty),))
             elif tk.kind == "append":
                 alts = self.stream_alts(tk.inner)
                 if len(alts) == 1:
-                    out.extend(self.render(alts[0], depth + 1, seen))
+                    out.extend(self.render(alts[0], depth + 1, seen, follow))
                 elif alts:
                     out.append("⟨alt")
                     for a in alts:
-                        out.extend(self.render(a, depth + 1, seen))
+                        out.extend(self.render(a, depth + 1, seen, follow))
                         out.append("|")
                     out[-1] = "⟩"
                 else:
